@@ -36,6 +36,18 @@ def cplx(s):
     return s
 
 
+def scalar_obj(s):
+    """The scalar as the caller hands it over: a Python number, or (key "np") a NumPy scalar object of that type
+    (np.float32 / np.float64 / np.complex64 / np.complex128 - e.g. an element taken from an array)."""
+    if isinstance(s, dict):
+        v = complex(s["re"], s["im"])
+        t = s.get("np")
+        if t:
+            return np.dtype(t).type(v.real if np.dtype(t).kind == "f" else v)
+        return v
+    return s
+
+
 def idx_of(spec_idx):
     out = []
     for e in spec_idx:
@@ -263,7 +275,7 @@ def build(sp):
         return L.IFFT(_c(sp["shape"]), axes=_c(sp["axes"]), center=sp["center"])
     if op == "Multiply":
         m = sp["mult"]
-        mult = cplx(m["scalar"]) if "scalar" in m else A.arr(m)
+        mult = scalar_obj(m["scalar"]) if "scalar" in m else A.arr(m)
         return L.Multiply(_c(sp["ishape"]), mult, conj=sp["conj"])
     if op == "MatMul":
         return L.MatMul(_c(sp["ishape"]), A.arr(sp["mat"]), adjoint=sp["adjoint"])
@@ -373,7 +385,7 @@ def build(sp):
     if op == "Neg":
         return -build(sp["a"])
     if op == "Scale":
-        s = cplx(sp["s"])
+        s = scalar_obj(sp["s"])
         a = build(sp["a"])
         return s * a if sp["side"] == "l" else a * s
     if op == "Hstack":
@@ -679,6 +691,20 @@ def st_big_tree(draw, max_depth=1, max_in=600, max_out=1500, dim_hi=16, min_in=4
 
 
 def st_scalar(draw, allow_one=True):
+    v = _st_scalar_value(draw, allow_one)
+    # one in four scalars is a NumPy scalar object (what indexing an array or numpy arithmetic yields)
+    t = draw(st.sampled_from([None, None, None, "float32", "float64", "complex64", "complex128"]))
+    if t is None:
+        return v
+    c = cplx(v)
+    if np.dtype(t).kind == "f":
+        if isinstance(c, complex) and c.imag != 0:
+            t = "complex64" if t == "float32" else "complex128"
+    c = complex(c)
+    return {"re": c.real, "im": c.imag, "np": t}
+
+
+def _st_scalar_value(draw, allow_one=True):
     kind = draw(st.integers(0, 5))
     if kind == 0 and allow_one:
         return 1
@@ -797,6 +823,12 @@ def g_multiply(draw, s, dt):
         ms = [draw(st.integers(1, 3)) if n == 1 else (n if draw(st.booleans()) else 1) for n in s]
     if prod(bshape(s, ms)) > MAX_OUT or multiply_adjoint_is_0d(s, ms):
         ms = list(s)
+    mk = draw(st.sampled_from(["float"] * 5 + ["bool", "uint8", "int8", "int16"]))
+    if mk != "float":
+        # masks and integer-valued weights: boolean / narrow integer arrays are valid multipliers
+        lo, hi = {"bool": (0, 1), "uint8": (0, 255), "int8": (-100, 100), "int16": (-300, 300)}[mk]
+        return {"op": "Multiply", "ishape": list(s), "conj": conj,
+                "mult": {"k": "ri", "shape": ms, "dtype": mk, "seed": draw(A.seeds), "lo": lo, "hi": hi}}
     return {"op": "Multiply", "ishape": list(s), "mult": _arr_spec(draw, ms, dt), "conj": conj}
 
 
